@@ -308,3 +308,26 @@ A(V("c18-benign-keys-call", "C18", MC, "    merger.glyphOrder = megaOrder = list
 SU = "subset/__init__.py"
 A(V("c07-ctx-setter-order", "C07", SU, "                def SetChainContextData(r, d):\n                    r.BacktrackClassDef, r.InputClassDef, r.LookAheadClassDef = d", "                def SetChainContextData(r, d):\n                    r.InputClassDef, r.BacktrackClassDef, r.LookAheadClassDef = d", "SUB-ctx"))
 A(V("c07-ctx-name-typo", "C07", SU, '                self.RuleSetCount = ChainTyp + "ClassSetCount"', '                self.RuleSetCount = ChainTyp + "ClassSetsCount"', "SUB-ctx"))
+
+# ---- third session: one canonical break per rule added after seed round 4 / the side notes -------------------------
+OTC = "ttLib/tables/otConverters.py"
+A(V("s3-recsize-removed", ["C01", "C02"], OTC, "class ValueRecord(ValueFormat):\n    def getRecordSize(self, reader):\n        return 2 * len(reader[self.which])\n\n", "class ValueRecord(ValueFormat):\n", "REC-SIZE"))
+A(V("s3-uniq-pool-keys", "C19", "ufoLib/converters.py", "list(firstRenamedGroups.values())", "list(firstRenamedGroups.keys())", "UNIQ-pool"))
+A(V("s3-lazy-neg", "C01", "misc/lazyTools.py", "            if k < 0:\n                # the item reader locates the record by its non-negative index\n                k += len(self.data)\n", "", "LAZY-neg"))
+A(V("s3-reorder-null", "C17", "ttLib/reorderGlyphs.py", "        if coverage is None:\n            # an optional coverage with a NULL offset, e.g.\n            # MathVariants.HorizGlyphCoverage when there are only vertical variants\n            return\n", "", "REORDER-null"))
+A(V("s3-unbound-version", "C03", "ttLib/ttFont.py", '                if writeVersion:\n                    tableWriter.begintag("ttFont", ttLibVersion=version)\n                else:\n                    tableWriter.begintag("ttFont")\n', '                tableWriter.begintag("ttFont", ttLibVersion=version)\n', "UNBOUND"))
+A(V("s3-attr-typo", "C01", "ttLib/tables/S__i_l_f.py", 'struct.pack((">%dH" % self.numCritFeatures), *self.critFeatures)', 'struct.pack((">%dH" % self.numCritFeaturs), *self.critFeatures)', "ATTR-NEAR"))
+A(V("s3-dead-def", "C15", "misc/psCharStrings.py", "\n        return encodeFixed\n\n    def decompile(self):\n        if self.bytecode is None:", "\n    def decompile(self):\n        if self.bytecode is None:", "DEAD-DEF"))
+A(V("s3-cache-key", "C15", "misc/sstruct.py", "        _formatcache[fmt, keep_pad_byte] = formatstring, names, fixes", "        _formatcache[fmt] = formatstring, names, fixes", "CACHE-KEY"))
+A(V("s3-comment-dashes", "C03", "misc/xmlWriter.py", '        while "--" in data:\n            data = data.replace("--", "- -")\n', "", "F8"))
+A(V("s3-woff-assert", "C20", "ttLib/sfnt.py", "            if len(data) != self.origLength:\n                raise TTLibError(\n                    \"unexpected size for decompressed '%s' table\" % self.tag\n                )\n", "            assert len(data) == self.origLength\n", "F17b"))
+A(V("s3-colr-glyphmap", "C16", "subset/__init__.py", "        glyphMap=s.reverseOrigGlyphMap,\n", "", "F12d"))
+A(V("s3-fea-langsys-unsorted", ["C16", "C11"], "feaLib/builder.py", "        for script, lang in sorted(self.language_systems):\n            key = (script, lang, feature_name)", "        for script, lang in self.language_systems:\n            key = (script, lang, feature_name)", "F12"))
+A(V("s3-bsln-unsorted", "C16", "subset/__init__.py", "            for glyph in sorted(s.glyphs)\n        }\n        if len(baselines) > 0:", "            for glyph in s.glyphs\n        }\n        if len(baselines) > 0:", "F12d"))
+A(V("s3-dehint-last-token", "C12", "cffLib/transforms.py", "            end = len(charString.program)\n            if end and charString.program[-1] in (\"return\", \"endchar\"):\n                end -= 1\n            for i in range(hints.last_checked, end):", "            for i in range(hints.last_checked, len(charString.program) - 1):", "LEN-1"))
+A(V("s3-rounding-none", "C14", "pens/roundingPen.py", " if pt is not None else None", "", "PEN-none"))
+A(V("s3-postmerge-guard", "C18", "merge/layout.py", "                and GDEF.table.Version >= 0x00010002\n                and GDEF.table.MarkGlyphSetsDef\n            ):\n                markFilteringSetMap = NonhashableDict(", "                and GDEF.table.Version >= 0x00010002\n            ):\n                markFilteringSetMap = NonhashableDict(", "MRG-sym"))
+# benign twins of the refactoring round's shapes, kept as permanent silent-cases
+A(V("s3-benign-early-return", ["C01", "C16"], "ttLib/ttFont.py", "        elif self.reader and tag in self.reader:\n            log.debug(\"Reading '%s' table from disk\", tag)\n            return self.reader[tag]\n        else:\n            raise KeyError(tag)", "        if not self.reader or tag not in self.reader:\n            raise KeyError(tag)\n        log.debug(\"Reading '%s' table from disk\", tag)\n        return self.reader[tag]", None, expect=0))
+A(V("s3-benign-alias", ["C04", "C20"], "ttLib/sfnt.py", "        head = self.tables[\"head\"]\n        if head.length < 12:", "        headEntry = self.tables[\"head\"]\n        head = headEntry\n        if head.length < 12:", None, expect=0))
+A(V("s3-benign-epoch-arms", "C16", "misc/timeTools.py", "    if source_date_epoch is not None:\n        return int(source_date_epoch) - epoch_diff\n    return int(time.time() - epoch_diff)", "    if source_date_epoch is None:\n        return int(time.time() - epoch_diff)\n    return int(source_date_epoch) - epoch_diff", None, expect=0))
